@@ -419,6 +419,7 @@ class Run:
         self.inner_acceptor = None
         self.own_tunnels = []
         self.aborted = []
+        self.abort_sent = []
         self.sess_count = 0
         self.conn = None
         self.acceptor = None
@@ -457,7 +458,13 @@ class Run:
                 elif k == 'abort':
                     num = getattr(chan, '_recv_chan', None)
                     owner_conn = getattr(chan, '_conn', None)
+                    peer_num = getattr(chan, '_send_chan', None)
                     chan.abort()
+
+                    if peer_num is not None and owner_conn is not None:
+                        # (our side's CLOSE must go out now, whatever was
+                        # called before: checked against the packet log)
+                        self.abort_sent.append((name, owner_conn, peer_num))
 
                     # abort() discards both directions: once the peer's
                     # CLOSE is in, nothing is left to wait for
@@ -879,6 +886,26 @@ def run_plan(plan, sched_seed=None, sched_replay=None):
     if not sim.loop.capped:
         # a channel that was aborted locally and whose peer has sent its
         # CLOSE must be closed by now, with or without the connection
+        for name, owner_conn, peer_num in run.abort_sent:
+            sent_close = False
+
+            for label, pkts in sim.pkts.items():
+                if sim.conns.get(label) is owner_conn:
+                    for d, t, _seq, payload, _note in pkts:
+                        if d == 'S' and t == 97 and len(payload) >= 5 and \
+                                int.from_bytes(payload[1:5],
+                                               'big') == peer_num:
+                            sent_close = True
+
+            if not sent_close and not owner_conn.is_closed() and \
+                    any(sim.conns.get(label) is owner_conn
+                        for label in sim.pkts):
+                world.violation(
+                    'hang', 'channel %s: abort() was called on an open '
+                    'connection, yet no CLOSE was ever sent for the channel '
+                    '(unsent data keeps it open)' % name, sig='abort-noclose')
+                break
+
         for name, owner_conn, num, task in run.aborted:
             if task.done() or owner_conn is None or num is None:
                 continue
@@ -909,6 +936,15 @@ def run_plan(plan, sched_seed=None, sched_replay=None):
                      ch.get('via') in ('string', 'string2', 'string2x')
                      and f['kind'] != 'stall'}
             indep |= {n.replace('drv-', 'abortwait-') for n in indep}
+            # (waits on a channel of another connection that is still up
+            # are judged by the abort oracles above)
+            indep |= {'abortwait-' + name
+                      for name, owner_conn, _n, _t in run.aborted
+                      if owner_conn is not None and
+                      owner_conn is not run.conn and
+                      owner_conn is not
+                      (run.server_owners[0].conn if run.server_owners
+                       else None) and not owner_conn.is_closed()}
             hung = [t.sim_name for t in sim.tracked if not t.done() and
                     t.sim_name not in indep]
 
